@@ -52,6 +52,7 @@ class SimThread(object):
     self.block_kind = None
     self.block_target = None
     self.wake_at = None       # timer
+    self.in_stall = False
     self.waiting_since = None  # decision number since runnable & unscheduled
     self.os_thread = None
     self.crashed = None
@@ -146,6 +147,15 @@ class Scheduler(object):
     # ("opcodes" knob: the gap between two pre-emption points then counts
     # instructions, so a switch can land inside one source line)
     self.opcodes = bool(self.k.get("opcodes", 0))
+    # "slow node" fault: a worker thread stops being schedulable for a while
+    # at one of its synchronisation points (1 in tstall_den of them)
+    self.tstall_den = self.k.get("tstall_den", 0)
+    # placement bias: stall only at this kind of synchronisation point (e.g.
+    # "lock.rel": right after a critical section, where membership changes)
+    self.tstall_at = self.k.get("tstall_at")
+    # faults (stalls) go on during the seeded prefix of phase 2, i.e. while
+    # close() is already running; they stop when round-robin starts
+    self.faults_in_close = bool(self.k.get("faults_in_close", 0))
     if self.opcodes:
       _warm_up_opcode_tracing()
     self.pct_changes = []
@@ -295,6 +305,24 @@ class Scheduler(object):
                           "no return within %d steps of round-robin "
                           "scheduling after faults stopped"
                           % self.phase2_bound, self.describe_threads()))
+    if self.rr_from is not None and not self.stalls_off and \
+       self.work >= self.rr_from:
+      self.stalls_off = True       # faults stop; the bound counts from here
+    if sync and self.tstall_den and not self.stalls_off and \
+       me is not None and me is not self.main and me.state == "running" \
+       and not me.in_stall and kind != "thread-stall" and \
+       (self.tstall_at is None or kind == self.tstall_at):
+      if self.S.chance("tstall", 1, self.tstall_den):
+        k = 400 if self.S.chance("tstall.long", 1,
+                                 10 if self.tstall_at is None else 3) \
+          else 1 + self.S.choose("tstall.k", 60)
+        self.count("fault.thread-stall")
+        me.in_stall = True
+        try:
+          self.block("thread-stall", None, wake_at=self.steps + k)
+        finally:
+          me.in_stall = False
+        return
     if self.pct_changes and self.work >= self.pct_changes[0]:
       self.pct_changes.pop(0)
       if me is not None:
@@ -483,7 +511,7 @@ class Scheduler(object):
     """ Faults stop; after a seeded number of further seeded decisions the
     scheduler becomes deterministic round-robin and the bound starts. """
     self.phase = 2
-    self.stalls_off = True
+    self.stalls_off = not self.faults_in_close
     self.phase2_start = self.work
     seeded = self.S.choose("phase2.seeded", self.k.get("phase2_seeded", 1))
     self.rr_from = self.work + seeded
